@@ -223,6 +223,16 @@ def _payload_shape(p, cands):
         return "E"
     if p[0] == "call" and p[1] in ("Iterator::cloned", "Iterator::copied") and p[2] and is_x(p[2][0]):
         return "iter:E"
+    if p[0] == "agg" and p[1].endswith("Next::Next") and len(p[2]) == 2 and is_field(p[2][0], 0):
+        v0 = unref(p[2][1])
+        if is_field(v0, 1):
+            return "identity"
+        if v0[0] == "deref" and is_field(v0[1], 1):
+            return "Next{idx, E}"
+        if v0[0] == "call" and v0[1] == "clone" and v0[2]:
+            a = unref(v0[2][0])
+            if is_field(a, 1) or (a[0] == "deref" and is_field(a[1], 1)):
+                return "Next{idx, E}"
     if p[0] == "agg" and p[1].endswith("NextChunk::NextChunk") and len(p[2]) == 2 and is_field(p[2][0], 0):
         v0 = unref(p[2][1])
         if is_field(v0, 1):
